@@ -52,6 +52,7 @@ class Recorder(object):
         self.steps = 0
         self.sched = 0
         self.step_index = None
+        self.outs = []      # hashes of library outputs that must not depend on the interpreter (kept out of the digest)
 
     def ev(self, *event):
         self.n += 1
@@ -59,6 +60,11 @@ class Recorder(object):
         self._h.update(s.encode())
         if self.keep:
             self.events.append(json.loads(s))
+
+    def out(self, value):
+        """Record a library output whose value must be the same in every interpreter (e.g. a simulated tree).  It is
+        kept out of the run digest - the digest judges the harness, the outputs judge the library."""
+        self.outs.append([self.step_index, hashlib.sha256(jdump(value).encode()).hexdigest()[:16]])
 
     def fault(self, kind, n=1):
         self.faults[kind] = self.faults.get(kind, 0) + n
@@ -86,7 +92,7 @@ class Recorder(object):
         return {
             "digest": self.digest, "nevents": self.n, "violations": self.violations,
             "faults": self.faults, "probes": self.probes, "keys": sorted(self.keys),
-            "ticks": self.ticks, "steps": self.steps, "sched": self.sched,
+            "ticks": self.ticks, "steps": self.steps, "sched": self.sched, "outs": self.outs,
         }
 
 
